@@ -17,6 +17,7 @@ fn scen(rng: &mut Rng) -> Vec<(Cfg, Entries)> {
         (Cfg { ct: grenad::CompressionType::Lz4, levels: 1, ..base.clone() }, values_for(&keyset(2, 60, rng), rng, 0)),
         (Cfg { ct: grenad::CompressionType::Zstd, levels: 2, ..base.clone() }, values_for(&keyset(1, 80, rng), rng, 0)),
         (base.clone(), vec![]),
+        (Cfg { ct: grenad::CompressionType::SnappyPre05, levels: 1, ..base.clone() }, values_for(&keyset(3, 70, rng), rng, 0)),
     ]
 }
 
@@ -116,33 +117,75 @@ fn c12_faults_surface_as_err() {
         }
     }
     // --- merge function fails at its n-th call; chunk creator fails; chunk I/O fails: through Sorter and Merger ---
-    #[derive(Clone)] struct Flaky { n: Rc<Cell<usize>>, fail_at: usize }
-    impl MergeFunction for Flaky { type Error = String; fn merge<'a>(&self, _k: &[u8], v: &[Cow<'a, [u8]>]) -> Result<Cow<'a, [u8]>, String> { self.n.set(self.n.get() + 1); if self.n.get() == self.fail_at { return Err("injected merge failure".into()); } Ok(v[0].clone()) } }
-    struct Chunks { created: Cell<usize>, fail_create_at: usize, io_fail_at: Option<usize>, bad_trailer: bool }
-    impl ChunkCreator for Chunks { type Chunk = SchedSource; type Error = grenad::Error;
-        fn create(&self) -> Result<SchedSource, grenad::Error> { self.created.set(self.created.get() + 1); if self.created.get() == self.fail_create_at { return Err(if self.bad_trailer { grenad::Error::InvalidFormatVersion } else { grenad::Error::Io(std::io::Error::new(std::io::ErrorKind::Other, "injected create failure")) }); }
-            let mut s = SchedSource::new(vec![], 3, usize::MAX, false); s.fail_at = self.io_fail_at; Ok(s) } }
+    // `fired` records that the injected failure really happened: from then on the public call in progress must return Err
+    #[derive(Clone)] struct Flaky { n: Rc<Cell<usize>>, fail_at: usize, fired: Rc<Cell<bool>> }
+    impl MergeFunction for Flaky { type Error = String; fn merge<'a>(&self, _k: &[u8], v: &[Cow<'a, [u8]>]) -> Result<Cow<'a, [u8]>, String> { self.n.set(self.n.get() + 1); if self.n.get() == self.fail_at { self.fired.set(true); return Err("injected merge failure".into()); } Ok(v[0].clone()) } }
+    /// chunk storage whose k-th call (per chunk) fails; notes in `fired` when that happened
+    struct FChunk { inner: SchedSource, no: usize, fired: Rc<Cell<bool>>, seek_calls: Rc<std::cell::RefCell<Vec<(usize, usize)>>> }
+    impl FChunk { fn note<T>(&self, r: std::io::Result<T>) -> std::io::Result<T> { if let Err(e) = &r { if e.to_string().contains("injected") { self.fired.set(true); } } r } }
+    impl std::io::Read for FChunk { fn read(&mut self, b: &mut [u8]) -> std::io::Result<usize> { let r = self.inner.read(b); self.note(r) } }
+    impl std::io::Write for FChunk { fn write(&mut self, b: &[u8]) -> std::io::Result<usize> { let r = self.inner.write(b); self.note(r) } fn flush(&mut self) -> std::io::Result<()> { let r = self.inner.flush(); self.note(r) } }
+    impl std::io::Seek for FChunk { fn seek(&mut self, p: std::io::SeekFrom) -> std::io::Result<u64> { let r = self.inner.seek(p); self.seek_calls.borrow_mut().push((self.no, self.inner.calls)); self.note(r) } }
+    struct Chunks { created: Cell<usize>, fail_create_at: usize, io_fail_at: Option<usize>, io_fail_one: Option<(usize, usize)>, bad_trailer: bool, fired: Rc<Cell<bool>>, seek_calls: Rc<std::cell::RefCell<Vec<(usize, usize)>>> }
+    impl ChunkCreator for Chunks { type Chunk = FChunk; type Error = grenad::Error;
+        fn create(&self) -> Result<FChunk, grenad::Error> { self.created.set(self.created.get() + 1); if self.created.get() == self.fail_create_at { self.fired.set(true); return Err(if self.bad_trailer { grenad::Error::InvalidFormatVersion } else { grenad::Error::Io(std::io::Error::new(std::io::ErrorKind::Other, "injected create failure")) }); }
+            let mut s = SchedSource::new(vec![], 3, usize::MAX, false); s.fail_at = self.io_fail_at;
+            if let Some((no, k)) = self.io_fail_one { if no == self.created.get() { s.fail_at = Some(k); } }
+            Ok(FChunk { inner: s, no: self.created.get(), fired: self.fired.clone(), seek_calls: self.seek_calls.clone() }) } }
     let keys = keyset(0, 40, &mut rng);
     let big: Vec<(Vec<u8>, Vec<u8>)> = (0..26u32).map(|i| (keys[(i % 40) as usize % keys.len()].clone(), vec![i as u8; 1024 * 1024])).collect(); // 26 MiB: spills + a chunk merge with max_nb_chunks(2)
-    let drive = |mf_fail: usize, create_fail: usize, io_fail: Option<usize>, bad: bool| -> Result<Result<usize, String>, ()> {
-        catch_unwind(AssertUnwindSafe(|| -> Result<usize, String> {
-            let mut b = Sorter::builder(Flaky { n: Rc::new(Cell::new(0)), fail_at: mf_fail }); b.dump_threshold(0).allow_realloc(false).max_nb_chunks(2);
-            let mut s = b.chunk_creator(Chunks { created: Cell::new(0), fail_create_at: create_fail, io_fail_at: io_fail, bad_trailer: bad }).build();
+    // route 0: streaming iterator; 1: write_into_stream_writer; 2: into_reader_cursors + Merger. Returns (outcome, fired)
+    let seek_calls: Rc<std::cell::RefCell<Vec<(usize, usize)>>> = Rc::new(std::cell::RefCell::new(vec![]));
+    let one: Cell<Option<(usize, usize)>> = Cell::new(None);
+    let drive = |mf_fail: usize, create_fail: usize, io_fail: Option<usize>, bad: bool, route: usize| -> (Result<Result<usize, String>, ()>, bool) {
+        let fired = Rc::new(Cell::new(false)); let f2 = fired.clone(); let sk2 = seek_calls.clone();
+        let r = catch_unwind(AssertUnwindSafe(|| -> Result<usize, String> {
+            let mf = Flaky { n: Rc::new(Cell::new(0)), fail_at: mf_fail, fired: f2.clone() };
+            let mut b = Sorter::builder(mf.clone()); b.dump_threshold(0).allow_realloc(false).max_nb_chunks(2);
+            let mut s = b.chunk_creator(Chunks { created: Cell::new(0), fail_create_at: create_fail, io_fail_at: io_fail, io_fail_one: one.get(), bad_trailer: bad, fired: f2.clone(), seek_calls: sk2.clone() }).build();
             for (k, v) in &big { s.insert(k, v).map_err(|e| format!("{}", e))?; }
-            let mut it = s.into_stream_merger_iter().map_err(|e| format!("{}", e))?; let mut n = 0;
-            while let Some(_) = it.next().map_err(|e| format!("{}", e))? { n += 1; } Ok(n) })).map_err(|_| ())
+            let mut n = 0;
+            match route {
+                0 => { let mut it = s.into_stream_merger_iter().map_err(|e| format!("{}", e))?; while let Some(_) = it.next().map_err(|e| format!("{}", e))? { n += 1; } }
+                1 => { let mut w = grenad::Writer::memory(); s.write_into_stream_writer(&mut w).map_err(|e| format!("{}", e))?; let bytes = w.into_inner().map_err(|e| e.to_string())?;
+                       n = decode_file(&bytes, None).map_err(|e| format!("written file malformed: {}", e))?.entries.len(); }
+                _ => { let cursors = s.into_reader_cursors().map_err(|e| format!("{}", e))?; let mut mb = Merger::builder(mf); mb.extend(cursors);
+                       let mut it = mb.build().into_stream_merger_iter().map_err(|e| format!("{}", e))?; while let Some(_) = it.next().map_err(|e| format!("{}", e))? { n += 1; } }
+            }
+            Ok(n) })).map_err(|_| ());
+        (r, fired.get())
     };
-    let clean = drive(0, 0, None, false); if !matches!(clean, Ok(Ok(_))) { cex(format!("C12 error reported although no component failed: {:?}", clean)); }
-    for n in 1..=(if tier_thorough() { 90 } else { 45 }) {
-        match drive(n, 0, None, false) { Err(()) => cex(format!("C12 sorter panicked when the merge function failed at its call #{}", n)), Ok(Ok(_)) => { if n <= 40 { cex(format!("C12 sorter reported success although the merge function failed at its call #{}", n)); } }
-            Ok(Err(e)) => if !e.contains("injected merge failure") { cex(format!("C12 merge failure surfaced as a different error: {}", e)); } }
+    let mut clean_n = [0usize; 3];
+    for route in 0..3 { let (clean, fired) = drive(0, 0, None, false, route); match clean { Ok(Ok(n)) if !fired => clean_n[route] = n, other => cex(format!("C12 error reported although no component failed (route {}): {:?}", route, other)) } }
+    if clean_n[0] != clean_n[1] || clean_n[0] != clean_n[2] { cex(format!("C12/C07 the three consumption routes of a sorter disagree on the number of keys: {:?}", clean_n)); }
+    // one verdict for every injected fault: no panic; if the fault fired the call must return an Err carrying it; if it did not
+    // fire (scheduled past the last call) the outcome must be the clean one
+    let judge = |what: String, route: usize, r: (Result<Result<usize, String>, ()>, bool), needle: &str| {
+        match r { (Err(()), _) => cex(format!("C12 sorter panicked when {} (route {})", what, route)),
+            (Ok(Ok(n)), true) => cex(format!("C12 sorter reported success ({} keys, clean run: {}) although {} (route {})", n, clean_n[route], what, route)),
+            (Ok(Ok(n)), false) => if n != clean_n[route] { cex(format!("C12 sorter output has {} keys instead of {} with a fault scheduled but never reached: {} (route {})", n, clean_n[route], what, route)); },
+            (Ok(Err(e)), fired) => { if !fired { cex(format!("C12 error reported although no component failed ({} never fired; route {}): {}", what, route, e)); } if !needle.is_empty() && !e.contains(needle) { cex(format!("C12 failure surfaced as a different error when {} (route {}): {}", what, route, e)); } } }
+    };
+    for n in 1..=(if tier_thorough() { 90 } else { 45 }) { let route = n % 3;
+        judge(format!("the merge function failed at its call #{}", n), route, drive(n, 0, None, false, route), "injected merge failure");
         merge_faults += 1;
     }
-    for c in 1..=4 { for bad in [false, true] {
-        match drive(0, c, None, bad) { Err(()) => cex(format!("C12 sorter panicked when the chunk creator failed at its call #{} ({})", c, if bad { "Error::InvalidFormatVersion" } else { "io error" })), Ok(Ok(_)) => cex(format!("C12 sorter reported success although the chunk creator failed at its call #{}", c)), Ok(Err(_)) => {} }
+    for c in 1..=4 { for bad in [false, true] { for route in 0..3 {
+        judge(format!("the chunk creator failed at its call #{} ({})", c, if bad { "Error::InvalidFormatVersion" } else { "io error" }), route, drive(0, c, None, bad, route), "");
+        merge_faults += 1; } } }
+    // exactly ONE chunk fails, at a call where the clean runs rewind / reposition it (or on the call after): this hits the
+    // reopening of a chunk for a chunk merge or for the final read while every other chunk -- the merged one included -- works
+    let mut at_seeks: Vec<(usize, usize)> = seek_calls.borrow().iter().flat_map(|&(no, c)| [(no, c), (no, c + 1)]).collect(); at_seeks.sort(); at_seeks.dedup();
+    // per chunk: its first few repositionings (the first one is the rewind after it was written)
+    let mut per_chunk: std::collections::BTreeMap<usize, usize> = Default::default();
+    at_seeks.retain(|&(no, _)| { let e = per_chunk.entry(no).or_insert(0); *e += 1; *e <= (if tier_thorough() { 40 } else { 6 }) });
+    for &(no, k) in at_seeks.iter() { for route in 0..3 {
+        one.set(Some((no, k)));
+        judge(format!("chunk #{} alone failed at its call #{} (a rewind / reposition of that chunk, or the call after it)", no, k), route, drive(0, 0, None, false, route), "injected");
+        one.set(None);
         merge_faults += 1; } }
-    for k in (1..=400).step_by(if tier_thorough() { 1 } else { 7 }) {
-        match drive(0, 0, Some(k), false) { Err(()) => cex(format!("C12 sorter panicked when chunk storage failed at its call #{}", k)), Ok(Ok(_)) => {}, Ok(Err(e)) => if !e.contains("injected") { cex(format!("C12 chunk I/O failure surfaced as a different error: {}", e)); } }
+    for k in (1..=400).step_by(if tier_thorough() { 1 } else { 7 }) { let route = (k / 7) % 3;
+        judge(format!("chunk storage failed at its call #{}", k), route, drive(0, 0, Some(k), false, route), "injected");
         merge_faults += 1;
     }
     // merger over failing sources that share keys (the failure hits while advancing a non-first holder of the key)
